@@ -400,6 +400,10 @@ func main() {
 	var lipShapes, pairs int64
 	n3 := shapes.Nodes3(vlib.Pick(c, 0, 2))
 	n2 := shapes.Nodes2(vlib.Pick(c, 0, 2))
+	if !c.Thorough() {
+		// recorded witness of the known finding that only the thorough enumeration contains
+		n2 = append(n2, shapes.Witness2("Multi2D[3 positions](Cut2D[a={0.25 0} v={-2 1}](Circle2D(r=1)@(-5,-5)))")...)
+	}
 	offs := [][3]int{}
 	for a := -1; a <= 1; a++ {
 		for b := -1; b <= 1; b++ {
